@@ -72,6 +72,11 @@ CO_Tree::CO_Tree(Iterator i, const dimension_type n) {
   stack[0].second = 3;
   ++stack_first_empty;
 
+  // If the copy of an element throws, this constructor does not complete,
+  // hence the destructor is not run: the elements built so far and the
+  // two arrays allocated by init() have to be released here.
+  try {
+
   while (stack_first_empty != 0) {
 
     // Implement
@@ -115,8 +120,9 @@ CO_Tree::CO_Tree(Iterator i, const dimension_type n) {
     else {
       if (top_n == 1) {
         PPL_ASSERT(root.index() == unused_index);
-        root.index() = i.index();
+        // Construct the element first: the index marks it as constructed.
         new(&(*root)) data_type(*i);
+        root.index() = i.index();
         ++i;
         --stack_first_empty;
       }
@@ -132,6 +138,12 @@ CO_Tree::CO_Tree(Iterator i, const dimension_type n) {
         stack_first_empty += 4;
       }
     }
+  }
+
+  }
+  catch (...) {
+    destroy();
+    throw;
   }
   size_ = n;
   PPL_ASSERT(OK());
